@@ -2,6 +2,7 @@ CONSTANTS
  Scenario = 3
  InitTtl = "zero"
  Variant = "ttl_zero_persist"
+ GetdelBlocking = TRUE
  OwnerSwitch = "sync"
  Ops <- MCOps
  Kind <- MCKind
